@@ -38,6 +38,7 @@ type Config struct {
 	WitnessModels bool
 	DumpObligations func(id, script string)
 	Tier int
+	InstrPkg string // package whose synchronisation operations are scheduling points of the native replay
 	witnessed *sync.Map
 }
 
@@ -103,6 +104,7 @@ type Violation struct {
 	Script  string
 	Entry   string
 	Trace   []string
+	Sched   []int
 }
 
 // Finding is a witness of a recorded class (verifFinding).
@@ -111,6 +113,7 @@ type Finding struct {
 	Pos    string
 	Values map[string]any
 	Entry  string
+	Sched  []int
 }
 
 // PathResult is what one executed path reports.
@@ -557,6 +560,7 @@ func (in *Interp) makeViolation(id, detail, extra string) Violation {
 	_, vals := in.modelValues(extra)
 	v.Values = vals
 	v.Script = in.solver.Script(extra)
+	v.Sched = append([]int(nil), in.spTrace...)
 	for _, e := range in.events {
 		v.Trace = append(v.Trace, fmtEvent(e))
 	}
@@ -620,7 +624,7 @@ func (in *Interp) reach(id string) {
 
 func (in *Interp) finding(id string) {
 	_, vals := in.modelValues("")
-	in.result.Findings = append(in.result.Findings, Finding{ID: id, Pos: in.pos(), Values: vals, Entry: in.sched.gs[0].name})
+	in.result.Findings = append(in.result.Findings, Finding{ID: id, Pos: in.pos(), Values: vals, Entry: in.sched.gs[0].name, Sched: append([]int(nil), in.spTrace...)})
 	panic(pathEnd{"ok", "finding " + id})
 }
 
